@@ -185,6 +185,26 @@ _extra7 = {
     "C18": " Round 7: (any, error) handlers for every second parameter list; handlers returning the zero value of their result type (the type survives).",
     "C19": " Round 7: schemas of tens of kilobytes of generated source; references to objects named like type IDs.",
 }
+_extra8 = {
+    "C01": " Round 8: perturbed inputs put an explicit null where a leaf was.",
+    "C02": " Round 8: every enumerated case and a third of the sampled ones also run on the schema rebuilt from its own description.",
+    "C03": " Round 8: struct values of inlined one-of members whose discriminator field is unset (nil pointer, treat-empty-as-default).",
+    "C04": " Round 8: chains of 4-49 single-property objects around a bounded integer, lone values of every kind.",
+    "C05": " Round 8: a step mode in which the step finishes only when the signal passed along with the call has reached it; signal handlers that take until the session's calls are over. CPU-time rule of 60 s per journalled session for computations that never end.",
+    "C06": " Round 8: histories with steps that need their signal to finish and with a signal handler that takes its time while other calls go on. CPU-time rule of 60 s per journalled session.",
+    "C07": " Round 8: a step whose input is a chain of single-property objects, with scalars in place of its input; run IDs that differ only in surrounding white space. CPU-time rule of 60 s per journalled session.",
+    "C08": " Round 8: fault kind read-timeout (an error whose Timeout() is true, returned by every later read); hellos with a schema that does not load from a plugin that talks on. CPU-time rule of 60 s per journalled session.",
+    "C09": " Round 8: plain schemas (NewSchema) whose step keys differ from the step IDs, one step under two keys.",
+    "C10": " Round 8: descriptions of chains of 4-49 single-property objects.",
+    "C12": " Round 8: schema comparisons of enums in which only some values carry display names.",
+    "C13": " Round 8: 16 goroutines inside one any-typed property with values nested 1-40 levels.",
+    "C14": " Round 8: ValidateReferences on the hand-written recursive scopes, struct-mapped ones included.",
+    "C16": " Round 8: unit names that differ in case only; near-miss strings with the case of letters changed.",
+    "C17": " Round 8: every judged rejection is repeated on the same value; offending elements 3-120 levels down a recursive value.",
+    "C18": " Round 8: handlers that call functions themselves (recursion, mutual recursion, nested calls).",
+}
+for _id, _txt in _extra8.items():
+    _extra[_id] = _extra.get(_id, "") + _txt
 for _id, _txt in _extra7.items():
     _extra[_id] = _extra.get(_id, "") + _txt
 for _id, _txt in _extra6.items():
